@@ -13,7 +13,8 @@ def SPushed (P : Prog) (c : Cfg) : Instr → List Instr → Prop
   | .pushModal scr args, p =>
     ∃ s, p = [.newLoop s, .modalRet { eid := c.A.nextEid, screen := scr, args := args, modal := true }]
   | .closeScreen frm, p =>
-    p = [] ∨ ∃ e, c.A.stack.getLast? = some e ∧ p = [.callScr e.screen .closed none none, .closeScreen2 e frm]
+    p = [] ∨ ∃ e, c.A.stack.getLast? = some e ∧ (frm = none ∨ frm = some (.scr e.screen)) ∧
+      p = [.callScr e.screen .closed none none, .closeScreen2 e frm]
   | .closeScreen2 e _, p => p = [] ∨ p = [.closeLoop, .closeScreen3 e] ∨ p = [.closeScreen3 e]
   | .processScreen, p =>
     p = [] ∨ ∃ top, c.A.stack.getLast? = some top ∧
@@ -54,7 +55,15 @@ theorem step_sched_pushed (P : Prog) (c : Cfg) (ins : Instr) (rest : List Instr)
   case closeScreen frm =>
     split
     · exact ⟨[], CodeStep.of_suffix (raised_code_suffix _ _), by simp [SPushed]⟩
-    · exact ⟨_, CodeStep.of_eq rfl, by simp [SPushed, *]⟩
+    · split
+      · exact ⟨[], CodeStep.of_suffix (raised_code_suffix _ _), by simp [SPushed]⟩
+      · rename_i e he hacc
+        exact ⟨_, CodeStep.of_eq rfl, by
+          have hacc' : frm = none ∨ frm = some (.scr e.screen) := by
+            by_cases h1 : frm = none
+            · exact .inl h1
+            · exact .inr (Classical.byContradiction fun h2 => hacc ⟨h1, h2⟩)
+          simp [SPushed, he, hacc']⟩
   case closeScreen2 e frm =>
     split
     · exact ⟨[], CodeStep.of_suffix (raised_code_suffix _ _), by simp [SPushed]⟩
